@@ -234,4 +234,5 @@ META = dict(
 C20_UNITS = ['yield_value_ref', 'yield_value_rref', 'ys_await_suspend', 'ys_await_resume', 'final_suspend', 'return_void', 'unhandled_exception',
              'next_async', 'next_sync', 'unblock_sync', 'resume_fn_sync', 'na_bool', 'na_await_ready', 'na_await_suspend', 'na_await_resume',
              'gen_next', 'gen_value', 'it_inc', 'it_deref', 'it_postinc',
+             'drive_next', 'drive_range_for', 'drive_iter_postfix',      # end-to-end stepping of a synchronous generator: 'the only dynamic allocations are the coroutine frames' (bounded; decides rewrites that change a member's signature - seed C20-5)
              'gen_next_arg', 'gen_call_arg', 'gen_next_rv_arg', 'gen_call_rv_arg', 'set_arg_arg', 'next_sync_arg', 'ys_await_resume_arg', 'yn_await_resume_arg', 'yield_value_ref_arg', 'yield_value_null_arg', 'na_bool_arg']
